@@ -116,24 +116,24 @@ type parkedTask struct {
 }
 
 type World struct {
-	realSQL        bool   // data methods of storage/ledger run for real over the SQL interpreter (sqlmini)
-	sqlUnsupported string // first statement the interpreter could not handle (the run is then inconclusive)
+	realSQL             bool   // data methods of storage/ledger run for real over the SQL interpreter (sqlmini)
+	sqlUnsupported      string // first statement the interpreter could not handle (the run is then inconclusive)
 	sqlUnsupportedTaint string
 	parkSeq             int
 	victims             map[string]int // op id -> how often one of its statements was the victim of an organic deadlock
-	lenientReads bool        // see unmodelled
-	sites        [][3]string // (task, store call, fault fired or "") for every step at a yield that admits faults
-	mu           sync.Mutex
-	db           *DB
-	eventCtr     uint64
-	parked       map[string]*parkedTask
-	yieldCount   map[string]int
-	abandoned    []*parkedTask
-	shutdown     bool
-	scheduling   bool
-	harness      error
-	epoch        int
-	deadEpochs   map[int]bool
+	lenientReads        bool           // see unmodelled
+	sites               [][3]string    // (task, store call, fault fired or "") for every step at a yield that admits faults
+	mu                  sync.Mutex
+	db                  *DB
+	eventCtr            uint64
+	parked              map[string]*parkedTask
+	yieldCount          map[string]int
+	abandoned           []*parkedTask
+	shutdown            bool
+	scheduling          bool
+	harness             error
+	epoch               int
+	deadEpochs          map[int]bool
 
 	calls    map[int]func(context.Context, *conn) error
 	nextCall int
